@@ -66,6 +66,16 @@ impl DiffFlagDefs {
             _ => return Err(invalid_definition()),
         };
 
+        // A name may only be printed for one flag, or else the label generated for a mask could
+        // parse back to a different mask.
+        if let Some((&other, _)) = self.by_flag.iter().find(|&(&flag, &c)| c == name && flag != index.value as FlagIndex) {
+            return Err(error!(
+                message("difficulty flag name {:?} is already the name of flag {}", name, other),
+                primary(str, "name reused here"),
+                note("give flag {} another name first", other),
+            ));
+        }
+
         self.define_flag(name, index.value as _, enable);
         Ok(())
     }
